@@ -313,7 +313,12 @@ func TestC01(t *testing.T) {
 		},
 		Run:    runC01,
 		Shrink: shrinkKVCase,
-		Strip:  func(c KVCase) any { return struct{ K kit.Knobs; O []kit.Op }{c.Knobs, c.Ops} },
-		Rule:   "seeded single-client programmes (put/del/get/txn/batch/flush/compact/reopen/sleep) x knobs x schedule of background flush/compaction; non-trivial = at least one SSTable exists at the end and >=3 write steps; distinct = (programme+knobs hash, schedule trace hash)",
+		Strip: func(c KVCase) any {
+			return struct {
+				K kit.Knobs
+				O []kit.Op
+			}{c.Knobs, c.Ops}
+		},
+		Rule: "seeded single-client programmes (put/del/get/txn/batch/flush/compact/reopen/sleep) x knobs x schedule of background flush/compaction; non-trivial = at least one SSTable exists at the end and >=3 write steps; distinct = (programme+knobs hash, schedule trace hash)",
 	})
 }
